@@ -192,6 +192,8 @@ pub fn gen_vector(rng: &mut Rng, id: String, fam: &str, cont: &str, n: usize, pr
     }
     let mut cmds = match profile {
         "wakeonly" | "fair" => vec![],
+        // other threads fire handed wakers while the owner thread runs the wake-only executor
+        "threads" => vec![json!(["poll"]), json!(["threads", 1 + rng.below(3), 10 + rng.below(40), rng.next() % 1000000])],
         _ => {
             let len = rng.below(if big { 6 } else { 14 });
             rand_cmds(rng, n, len, group, nchildren)
